@@ -33,16 +33,18 @@ def parts(tier: str) -> List[Part]:
     if tier == "thorough":
         return [Part("enumerated", "enum", shards=16, examples=0, enumerate=lambda s, n: pc.enumerate_cases(THOROUGH_BOUNDS, s, n),
                      exhaustive=True, soft_deadline_s=3000),
-                Part("generated", "given", shards=8, examples=20000, strategy=lambda: pc.histories(60), soft_deadline_s=1500)]
+                Part("generated", "given", shards=8, examples=20000, strategy=lambda: pc.histories(60), soft_deadline_s=1500),
+                Part("hosted", "given", shards=4, examples=1500, strategy=pc.hosted_histories, soft_deadline_s=900)]
     return [Part("enumerated", "enum", shards=12, examples=0, enumerate=lambda s, n: pc.enumerate_cases(QUICK_BOUNDS, s, n),
                  exhaustive=True, soft_deadline_s=200),
-            Part("generated", "given", shards=4, examples=1500, strategy=pc.histories, soft_deadline_s=100)]
+            Part("generated", "given", shards=4, examples=1500, strategy=pc.histories, soft_deadline_s=100),
+            Part("hosted", "given", shards=2, examples=120, strategy=pc.hosted_histories, soft_deadline_s=100)]
 
 
 def run_case(case: Dict[str, Any]) -> Outcome:
     out = Outcome()
     out.clauses_checked = ["C17.a", "C17.b", "C17.c"]
-    res = procman.run_manager(case["W"], case["mf"], case["h"], case["sd"], case.get("slow", ()))
+    res = (procman.run_manager_hosted if case.get("hosted") else procman.run_manager)(case["W"], case["mf"], case["h"], case["sd"], case.get("slow", ()))
     an = pc.analyse(case["W"], case["mf"], res, out, "C17")
     cl = pc.classify(case, res, an)
     out.nontrivial = bool(cl)
